@@ -88,6 +88,10 @@ Failing ==
      (IF Den = Rec.intended THEN {} ELSE {"GeneratorAgreesWithDenote"})
   \cup (IF Rec.accepted /\ Den # Rec.obs THEN {"Denotes"} ELSE {})
   \cup (IF Rec.accepted /\ "unspec" \notin DOMAIN ToPy(Den) /\ ToPy(Den) # Rec.py THEN {"ToPython"} ELSE {})
+  \* to_python applied by the consumer to a term it built itself, whose list tails and arguments are variables bound
+  \* by unifications that are still suspended (field `absent`: not recorded for this literal)
+  \cup (IF Rec.accepted /\ "absent" \notin DOMAIN Rec.py_direct /\ "unspec" \notin DOMAIN ToPy(Den) /\ ToPy(Den) # Rec.py_direct
+        THEN {"ToPythonOfATermWithBoundParts"} ELSE {})
   \cup (IF Rec.accepted /\ ~Rec.api_unifies THEN {"ApiBuiltTermUnifies"} ELSE {})
   \cup (IF Rec.accepted /\ ~Rec.cross_unifies THEN {"UnifiesAcrossEngines"} ELSE {})
   \cup (IF Rec.accepted /\ ~Rec.atoms_interned THEN {"AtomsInternedPerEngine"} ELSE {})
